@@ -23,6 +23,10 @@ is not a clamp):
 or "no min_periods parameter at all" (ts_fdiff).  Exactly one `let min_periods`, at most one `let window`, both at the top
 level of the body, no other binding of / assignment to either name; the clamp, if present, must precede the min_periods
 line.  Anything else: exit 2.
+
+Aggregation, rolling-closure and map families (C11 / C12, C04 (C01), C13; conformance in coq/Proofs/SrcTablesAgg.v): the DECISION
+tables — comparison operators, constants, the side EPS is on, interpolation arms, sign arms and their iterator pipelines — see
+the block comment above `AGG_CORE` below and notes/translator.md.
 """
 import os, re, sys
 ROOT = os.path.dirname(os.path.dirname(os.path.abspath(__file__)))
